@@ -421,15 +421,22 @@ func updateResOne(res Resolver, rel UniRel) []UniRel {
 	}
 }
 
-func updateResolver(res Resolver, rels []UniRel) Resolver {
+func updateResolverD(res Resolver, count int, rels []UniRel) Resolver {
+	frt.IfOnly((count > 1000), (func() {
+		PanicNow("Too deep unification, maybe cyclic type, give up")
+	}))
 	nrels := frt.Pipe(frt.Pipe(rels, (func(_r0 []UniRel) [][]UniRel {
 		return slice.Map((func(_r0 UniRel) []UniRel { return updateResOne(res, _r0) }), _r0)
 	})), slice.Concat)
 	return frt.IfElse(slice.IsEmpty(nrels), (func() Resolver {
 		return res
 	}), (func() Resolver {
-		return updateResolver(res, nrels)
+		return updateResolverD(res, (count + 1), nrels)
 	}))
+}
+
+func updateResolver(res Resolver, rels []UniRel) Resolver {
+	return updateResolverD(res, 0, rels)
 }
 
 func transTypeLfd(transTV func(TypeVar) FType, lfd LetFuncDef) LetFuncDef {
